@@ -103,8 +103,8 @@ class Token:
 
     def position(self) -> Tuple[int, int]:
         """Return the line and column number for the start of this token."""
-        line_number = self.value.count("\n", 0, self.index) + 1
-        column_number = self.index - self.value.rfind("\n", 0, self.index)
+        line_number = self.query.count("\n", 0, self.index) + 1
+        column_number = self.index - self.query.rfind("\n", 0, self.index)
         return (line_number, column_number - 1)
 
 
